@@ -97,6 +97,13 @@ Qed.
 Lemma elem_ok_dsdl : forall k v, elem_ok PW true (EPrim k) v = true -> elem_in_dsdl_range (EPrim k) v = true.
 Proof. intros k v. destruct k, v; cbn [elem_ok elem_in_dsdl_range]; intros; try discriminate; auto. Qed.
 
+(* when the full contract (elements inside the DSDL range) is needed for the way back: in the conformant variant, and
+   whenever the template range-checks the source of a conversion (whatever the generated flag is) *)
+Definition need_strict (q : bool) : Prop := q = false \/ t_arr_precheck TG = true.
+
+Lemma elem_ok_int_leaf : forall k v, elem_ok PW true (EPrim k) v = true -> int_leaf_ok (EPrim k) v = true.
+Proof. intros k v. destruct k, v; cbn [elem_ok int_leaf_ok int_in_range]; intros; try discriminate; auto. Qed.
+
 Lemma chkG_rt : forall (q : bool) k l, (q = false -> forallb (elem_ok PW true (EPrim k)) l = true) ->
   chkG q (EPrim k) l = Ok (PArr (dtype_of PW (EPrim k)) l).
 Proof.
@@ -107,16 +114,22 @@ Qed.
 
 Lemma plain_rt : forall q fixed cap k l,
   float_arr_ok k -> forallb (elem_ok PW false (EPrim k)) l = true ->
-  (q = false -> forallb (elem_ok PW true (EPrim k)) l = true) -> lenG fixed (length l) cap = true ->
+  (need_strict q -> forallb (elem_ok PW true (EPrim k)) l = true) -> lenG fixed (length l) cap = true ->
   assignG q fixed cap (EPrim k) (PList l) = Ok (PArr (dtype_of PW (EPrim k)) l).
 Proof.
-  intros q fixed cap k l Hk Ho Hs Hl. cbn [assignG]. unfold slowG, np_array.
-  rewrite forallb_forall in Ho.
+  intros q fixed cap k l Hk Ho Hs Hl. cbn [assignG]. unfold slowG.
+  assert (Hleaf : forallb is_leafval l = true).
+  { rewrite forallb_forall in *. intros x Hx. eapply elem_ok_leaf; eauto. }
+  assert (int_src_ok TG (EPrim k) (PList l) = true) as ->.
+  { unfold int_src_ok. destruct (t_arr_precheck TG) eqn:P; [|reflexivity]. cbn [negb orb].
+    destruct (np_flat_leaves l Hleaf) as [sh ->]. cbn [snd]. specialize (Hs (or_intror P)).
+    rewrite forallb_forall in *. intros x Hx. apply elem_ok_int_leaf. auto. }
+  unfold np_array. rewrite forallb_forall in Ho.
   destruct (np_flat_leaves l) as [sh ->].
   { apply forallb_forall. intros x Hx. eapply elem_ok_leaf; eauto. }
   cbn [bind snd]. rewrite mapM_id by (intros x Hx; apply conv_leaf_id; auto).
   cbn [bind]. rewrite Hl, float_src_ok_other by (destruct k; cbn [float_arr_ok] in Hk; auto).
-  apply chkG_rt; exact Hs.
+  apply chkG_rt. intros Hq. apply Hs. left; exact Hq.
 Qed.
 
 Lemma printable_lt : forall c, printable c = true -> (c < 128)%N.
@@ -148,18 +161,18 @@ Qed.
 
 Lemma str_rt : forall q fixed cap w l bytes, w <= 8 ->
   forallb (elem_ok PW false (EPrim (KU w))) l = true ->
-  (q = false -> forallb (elem_ok PW true (EPrim (KU w))) l = true) -> lenG fixed (length l) cap = true ->
+  (need_strict q -> forallb (elem_ok PW true (EPrim (KU w))) l = true) -> lenG fixed (length l) cap = true ->
   omap as_byte l = Some bytes -> forallb printable bytes = true ->
   assign_array TG PW q fixed cap true (EPrim (KU w)) (PStr bytes) = Ok (PArr (DU (pwd PW w)) l).
 Proof.
   intros q fixed cap w l bytes Hw Ho Hs Hl Hb Hp. rewrite assign_array_gen. cbn [strconv].
   rewrite (utf8_printable _ Hp). cbn [assignG fast_bytesG].
   destruct (bytes_back w l bytes Ho Hb Hp) as [E L]. rewrite E, L, Hl.
-  assert (w <=? 8 = true) as -> by lia. cbn [andb]. apply (chkG_rt q (KU w) l Hs).
+  assert (w <=? 8 = true) as -> by lia. cbn [andb]. apply (chkG_rt q (KU w) l). intros Hq. apply Hs. left; exact Hq.
 Qed.
 
 Theorem field_roundtrip : forall q f s b,
-  ftype_flat f = true -> field_ok PW false f s = true -> (q = false -> field_ok PW true f s = true) ->
+  ftype_flat f = true -> field_ok PW false f s = true -> (need_strict q -> field_ok PW true f s = true) ->
   tb_field f s = Some b -> field_value TG PW q f b = Ok s.
 Proof.
   intros q f s b Hf Ho Hs Hb. destruct f as [[k|t]|fixed cap sl [k|t]]; cbn [ftype_flat] in Hf; try discriminate.
@@ -177,7 +190,7 @@ Proof.
     destruct s as [| | | | | | | |dt l|]; cbn [field_ok] in Ho; try discriminate.
     apply andb_true_iff in Ho. destruct Ho as [Ho Hel]. apply andb_true_iff in Ho. destruct Ho as [Hdt Hlen].
     apply dtype_eqb_eq in Hdt. subst dt. change (lenG fixed (length l) cap = true) in Hlen.
-    assert (Hs' : q = false -> forallb (elem_ok PW true (EPrim k)) l = true).
+    assert (Hs' : need_strict q -> forallb (elem_ok PW true (EPrim k)) l = true).
     { intros Hq. specialize (Hs Hq). cbn [field_ok] in Hs. apply andb_true_iff in Hs. tauto. }
     assert (Plain : omap (tb_prim k) l = Some l).
     { apply omap_id. rewrite forallb_forall in Hel. intros x Hx. apply tb_prim_id. auto. }
@@ -307,7 +320,7 @@ Section Roundtrip.
   Hypothesis Hflat : forallb ftype_flat (c_fields c) = true.
 
   Lemma flat_step : forall f i s bv cs,
-    nth_error (c_fields c) i = Some f -> field_ok PW false f s = true -> (q = false -> field_ok PW true f s = true) ->
+    nth_error (c_fields c) i = Some f -> field_ok PW false f s = true -> (need_strict q -> field_ok PW true f s = true) ->
     tb_field f s = Some bv ->
     ufb_step q db rec c f i bv cs =
     ((if c_union c then clear_others i (update_nth i s cs) else update_nth i s cs), None).
@@ -336,7 +349,7 @@ Section Roundtrip.
   Lemma loop_struct : c_union c = false ->
     forall fs sl i kvi, tb_go db fs sl i = Some kvi ->
     (forall j, nth_error fs j = nth_error (c_fields c) (i + j)) ->
-    fields_ok PW false false fs sl = true -> (q = false -> fields_ok PW true false fs sl = true) ->
+    fields_ok PW false false fs sl = true -> (need_strict q -> fields_ok PW true false fs sl = true) ->
     forall kv0 pre dsl, (forall j, (i <= j)%nat -> lookup j kv0 = lookup j kvi) ->
     length pre = i -> length dsl = length sl ->
     ufb_loop TG PW q db rec c fs i kv0 (pre ++ dsl) = (pre ++ sl, None).
@@ -351,7 +364,7 @@ Section Roundtrip.
       { rewrite forallb_forall in Hflat. apply Hflat. eapply nth_error_In; eauto. }
       assert (Hfs' : forall j, nth_error fs j = nth_error (c_fields c) (Datatypes.S i + j)).
       { intros j. specialize (Hfs (Datatypes.S j)). cbn [nth_error] in Hfs. rewrite Hfs. f_equal. clear; lia. }
-      assert (Hs1 : q = false -> field_ok PW true f s = true /\ fields_ok PW true false fs sl = true).
+      assert (Hs1 : need_strict q -> field_ok PW true f s = true /\ fields_ok PW true false fs sl = true).
       { intros Hq. specialize (Hs Hq). cbn [fields_ok andb orb] in Hs. apply andb_true_iff in Hs. exact Hs. }
       rewrite tb_go_cons, (flat_not_none _ _ _ Ff Ho), (tb_b_flat db f s Ff) in Hgo.
       destruct (tb_field f s) as [bv|] eqn:Eb; [|discriminate].
@@ -370,7 +383,7 @@ Section Roundtrip.
   Lemma loop_union : c_union c = true ->
     forall fs sl i kvi, tb_go db fs sl i = Some kvi ->
     (forall j, nth_error fs j = nth_error (c_fields c) (i + j)) ->
-    fields_ok PW false true fs sl = true -> (q = false -> fields_ok PW true true fs sl = true) ->
+    fields_ok PW false true fs sl = true -> (need_strict q -> fields_ok PW true true fs sl = true) ->
     count_active sl = 1%nat ->
     forall kv0 cpre csl, (forall j, (i <= j)%nat -> lookup j kv0 = lookup j kvi) ->
     length cpre = i -> length csl = length sl ->
@@ -386,7 +399,7 @@ Section Roundtrip.
       { rewrite forallb_forall in Hflat. apply Hflat. eapply nth_error_In; eauto. }
       assert (Hfs' : forall j, nth_error fs j = nth_error (c_fields c) (Datatypes.S i + j)).
       { intros j. specialize (Hfs (Datatypes.S j)). cbn [nth_error] in Hfs. rewrite Hfs. f_equal. clear; lia. }
-      assert (Hs1 : q = false -> (is_none s || field_ok PW true f s) = true /\ fields_ok PW true true fs sl = true).
+      assert (Hs1 : need_strict q -> (is_none s || field_ok PW true f s) = true /\ fields_ok PW true true fs sl = true).
       { intros Hq. specialize (Hs Hq). cbn [fields_ok andb] in Hs. apply andb_true_iff in Hs. exact Hs. }
       assert (Ld' : length csl = length sl) by (cbn [length] in Ld; clear - Ld; lia).
       rewrite count_active_cons in Hc. rewrite tb_go_cons in Hgo. rewrite ufb_loop_cons.
@@ -407,7 +420,7 @@ Section Roundtrip.
         rewrite (tb_b_flat db f s Ff), (tb_go_all_none db sl fs _ Hn (fields_ok_length _ _ _ _ Hos)) in Hgo.
         destruct (tb_field f s) as [bv|] eqn:Eb; [|discriminate]. inversion Hgo; subst kvi.
         rewrite (Hk i (le_n i)). cbn [lookup]. rewrite Nat.eqb_refl.
-        assert (Hs2 : q = false -> field_ok PW true f s = true).
+        assert (Hs2 : need_strict q -> field_ok PW true f s = true).
         { intros Hq. destruct (Hs1 Hq) as [H1 _]. exact H1. }
         rewrite (flat_step f i s bv _ Ef Ho Hs2 Eb), U. subst i. rewrite update_nth_app, clear_others_app.
         rewrite loop_skip.
@@ -419,7 +432,7 @@ End Roundtrip.
 
 Theorem builtin_roundtrip_flat : forall q db tid c slots dslots b fuel,
   nth_error db tid = Some c -> forallb ftype_flat (c_fields c) = true ->
-  obj_ok PW false c slots = true -> (q = false -> obj_ok PW true c slots = true) ->
+  obj_ok PW false c slots = true -> (need_strict q -> obj_ok PW true c slots = true) ->
   length dslots = length (c_fields c) ->
   tb db (PObj tid slots) = Some b ->
   ufb TG PW q db (S fuel) (PObj tid dslots) b = (PObj tid slots, None).
@@ -428,7 +441,7 @@ Proof.
   rewrite tb_PObj, Ec in Hb. destruct (tb_go db (c_fields c) slots 0) as [kv|] eqn:Eg; [|discriminate].
   cbn [option_map] in Hb. inversion Hb; subst b. rewrite ufb_S, Ec. cbn [ufb_kv].
   unfold obj_ok in Ho. apply andb_true_iff in Ho. destruct Ho as [Hf Hc].
-  assert (Hs' : q = false -> fields_ok PW true (c_union c) (c_fields c) slots = true).
+  assert (Hs' : need_strict q -> fields_ok PW true (c_union c) (c_fields c) slots = true).
   { intros Hq. specialize (Hs Hq). unfold obj_ok in Hs. apply andb_true_iff in Hs. tauto. }
   assert (Ls : length dslots = length slots) by (rewrite (fields_ok_length _ _ _ _ Hf); exact Ld).
   assert (Loop : ufb_loop TG PW q db (ufb TG PW q db fuel) c (c_fields c) 0 kv dslots = (slots, None)).
@@ -447,7 +460,7 @@ Qed.
 (* in particular for the instance the model starts from *)
 Corollary builtin_roundtrip_default : forall q db tid c slots dslots b fuel,
   nth_error db tid = Some c -> forallb ftype_flat (c_fields c) = true ->
-  obj_ok PW false c slots = true -> (q = false -> obj_ok PW true c slots = true) ->
+  obj_ok PW false c slots = true -> (need_strict q -> obj_ok PW true c slots = true) ->
   default_obj TG PW q db tid = PObj tid dslots -> length dslots = length (c_fields c) ->
   tb db (PObj tid slots) = Some b ->
   ufb TG PW q db (S fuel) (default_obj TG PW q db tid) b = (PObj tid slots, None).
